@@ -52,7 +52,9 @@ def cases(draw, tier):
             X = [[0.0] * p for _ in range(n)]
         else:
             bulk = "matrix"
-            unit = draw(st.sampled_from([1.0, 1.0, 1.0, 1e-3, 1e-6, 1e3]))  # data in small / large units
+            unit = draw(st.sampled_from([1.0, 1.0, 1.0, 1e-3, 1e-6, 1e3]))
+            if isinstance(sc, dict) and sc["cls"].startswith("SecondMoment") and draw(st.integers(0, 2)) == 0:
+                unit = "level_9e9"  # readings of a 9.19 GHz standard: a huge level, which this user score depends on  # data in small / large units
             if draw(st.integers(0, 7)) == 0:
                 unit = "int16"  # rail-to-rail readings of a 16-bit converter, handed over as an int16 array
     mil = D.weighted(draw, [(2, st.just(2 * msl)), (6, st.integers(2 * msl, 2 * msl + 40)), (1, st.just(200))])
@@ -78,6 +80,8 @@ def cases(draw, tier):
             X = [[float(max(-32768, min(32767, round(v * 3000)))) for v in row] for row in X]
             case["as_int16"] = True
             case["n_train"], case["history"] = None, None
+        elif unit == "level_9e9":
+            X = [[v + 9.19e9 for v in row] for row in X]
         elif unit != 1.0:
             X = [[v * unit for v in row] for row in X]
     case["X"] = X
